@@ -48,7 +48,7 @@ theorem sliceByLine_fast (cfg : Config) (m : MatcherI) (inp : Bytes) (hbin : cfg
   rw [detectBinary_none hbin rfl]
   by_cases hne : inp = []
   · subst hne
-    simp [sliceLoop, st0, Core.new, finish, emit_allCont, byteCount, Run.events, grepSpec, splitLines,
+    simp [sliceLoop, st0, Core.new, finish, emit_allCont, byteCount, ite_self, Run.events, grepSpec, splitLines,
       grepSpecLines, effective, stopTrunc, offsetAt]
   · have hF : FastInv cfg (linesOf cfg m inp) 0 0 (st0 cfg) :=
       ⟨(slowInv_init cfg _ true).inv, Nat.le_refl _, fun j h1 h2 => by omega, aclOK_init _ _, by simp [st0, Core.new, off_zero]⟩
@@ -69,7 +69,7 @@ theorem sliceByLine_fast (cfg : Config) (m : MatcherI) (inp : Bytes) (hbin : cfg
         rw [← hl]; simp
     dsimp only
     rw [hloop]
-    simp only [finish, emit_allCont, byteCount, hbo, Run.events, hpos, hev, hspec]
+    simp only [finish, emit_allCont, byteCount, ite_self, hbo, Run.events, hpos, hev, hspec]
     exact ⟨by simp, trivial⟩
 
 end RgVerif.Searcher
